@@ -39,7 +39,7 @@ pub fn generate_c16(seed: u64, thorough: bool, known: &HashSet<String>) -> Trace
         w[10] = 1;
         w[11] = 1;
     }
-    if known.contains("pm_batch_mixed") {
+    if known.contains("pm_batch_mixed") || known.contains("pm_batch_mixed_flags") {
         w[6] = 0;
     }
     for _ in 0..nsteps {
@@ -177,6 +177,10 @@ pub fn run_replay(tv: &Value, known: &HashSet<String>, scratch: &std::path::Path
         Some(t) => t,
         None => return (None, Some("bad trace".into()), 0, Counters::default()),
     };
+    if tv["storage_fault"]["layer"].as_str() == Some("exit") {
+        let r = run_crash(&trace, tv["storage_fault"]["k"].as_u64().unwrap_or(1), scratch);
+        return (r.violation, r.harness_error, 0, r.counters);
+    }
     if tv["storage_fault"]["layer"].as_str() == Some("L2") {
         let r = run_l2(&trace, tv["storage_fault"]["bits"].as_u64().unwrap_or(1), tv["storage_fault"]["after_step"].as_u64().unwrap_or(0) as usize, scratch);
         return (r.violation, r.harness_error, 0, r.counters);
@@ -295,7 +299,7 @@ pub fn run_l2(trace: &Trace, bits: u64, after_step: usize, scratch: &std::path::
         if matches!(step.op, Op::Reopen { .. } | Op::Reset | Op::Init { .. }) {
             continue;
         }
-        if matching_signatures(&kind, &step.op, &node.model).contains(&"pm_batch_mixed") {
+        if matching_signatures(&kind, &step.op, &node.model).iter().any(|s| s.starts_with("pm_batch_mixed")) {
             continue;
         }
         let pre = node.model.clone();
@@ -424,5 +428,236 @@ pub fn l2_replay_json(trace: &Trace, bits: u64, after_step: usize) -> Value {
     let mut j = trace.to_json();
     j["engine"] = json!("e1store");
     j["storage_fault"] = json!({"layer": "L2", "bits": bits, "after_step": after_step});
+    j
+}
+
+// ------------------------------------------------------------------------------------------------
+// Crash without goodbye: the history runs in a child process that `_exit`s from the storage hook at
+// write k (no drop, no flush); the parent reopens the location. Only what a successful flush made
+// durable is demanded back; everything else must be an old or a later-written value, never garbage.
+// ------------------------------------------------------------------------------------------------
+
+/// Child side: executes the trace with exit_at = k, acknowledging every returned step in `ack`
+/// (one JSON line per step, synced) so that the parent knows exactly what was acknowledged.
+pub fn crash_child(tv: &Value, k: u64, ack_path: &std::path::Path, scratch: &std::path::Path) -> i32 {
+    use std::io::Write;
+    let trace = match Trace::from_json(tv) {
+        Some(t) => t,
+        None => return 3,
+    };
+    let mut ack = match std::fs::OpenOptions::new().create(true).append(true).open(ack_path) {
+        Ok(f) => f,
+        Err(_) => return 3,
+    };
+    let kind = trace.nodes[0].clone();
+    let known = HashSet::new();
+    let mut ctx = Ctx::new("C16", &known, scratch);
+    zerokit_utils::verif::arm(&[], None, Some(k));
+    let mut node = match guarded(|| Node::create(&kind, trace.depth, &trace.store, scratch)) {
+        Ok(Ok(n)) => n,
+        _ => return 4,
+    };
+    let _ = writeln!(ack, "{}", json!({"created": true}));
+    let _ = ack.sync_data();
+    for (si, step) in trace.steps.iter().enumerate() {
+        if matches!(step.op, Op::Reset | Op::Init { .. }) {
+            continue;
+        }
+        if matching_signatures(&kind, &step.op, &node.model).iter().any(|s| s.starts_with("pm_batch_mixed")) {
+            continue;
+        }
+        let r = guarded(|| node.apply(step, &ReadPlan::clean(), &trace.store, &mut ctx));
+        let ok = matches!(r, Ok(Ok(())));
+        let panicked = r.is_err();
+        let _ = writeln!(ack, "{}", json!({"step": si as u64, "ok": ok, "panic": panicked}));
+        let _ = ack.sync_data();
+        if panicked {
+            return 5;
+        }
+    }
+    let _ = writeln!(ack, "{}", json!({"done": true}));
+    let _ = ack.sync_data();
+    // a process that reaches the end also dies without goodbye
+    std::process::exit(0);
+}
+
+pub struct CrashResult {
+    pub violation: Option<Violation>,
+    pub harness_error: Option<String>,
+    pub exited_at_k: bool,
+    pub counters: Counters,
+}
+
+/// Parent side for one (history, k).
+pub fn run_crash(trace: &Trace, k: u64, scratch: &std::path::Path) -> CrashResult {
+    let mut res = CrashResult { violation: None, harness_error: None, exited_at_k: false, counters: Counters::default() };
+    let _ = std::fs::remove_dir_all(scratch);
+    let _ = std::fs::create_dir_all(scratch);
+    let tfile = scratch.join("trace.json");
+    let ack = scratch.join("ack.jsonl");
+    let data = scratch.join("data");
+    let _ = std::fs::create_dir_all(&data);
+    let mut tj = trace.to_json();
+    tj["engine"] = json!("e1store");
+    if std::fs::write(&tfile, tj.to_string()).is_err() {
+        res.harness_error = Some("cannot write trace".into());
+        return res;
+    }
+    let exe = match std::env::current_exe() {
+        Ok(e) => e,
+        Err(e) => {
+            res.harness_error = Some(format!("current_exe: {e}"));
+            return res;
+        }
+    };
+    let status = std::process::Command::new(exe)
+        .args(["crash-child", "--trace", tfile.to_str().unwrap(), "--exit-at", &k.to_string(), "--ack", ack.to_str().unwrap(), "--scratch", data.to_str().unwrap()])
+        .env("TMPDIR", scratch)
+        .stdout(std::process::Stdio::null())
+        .stderr(std::process::Stdio::null())
+        .status();
+    let code = match status {
+        Ok(s) => s.code().unwrap_or(-1),
+        Err(e) => {
+            res.harness_error = Some(format!("spawn child: {e}"));
+            return res;
+        }
+    };
+    res.exited_at_k = code == 77;
+    if code != 77 && code != 0 {
+        if code == 5 {
+            // a panic in the child is a violation in its own right (no storage failure was injected)
+            res.violation = Some(Violation { prop: "C16".into(), node: trace.nodes[0].clone(), step: 0, op_kind: "crash_child".into(), clause: "panic_in_child".into(), detail: format!("child exit code {code}") });
+        } else {
+            res.harness_error = Some(format!("child exit code {code}"));
+        }
+        return res;
+    }
+    res.counters.inc(if code == 77 { "fault.process_exit_at_storage_write" } else { "crash_position_beyond_history" });
+    // what was acknowledged
+    let acked: Vec<Value> = std::fs::read_to_string(&ack).unwrap_or_default().lines().filter_map(|l| serde_json::from_str(l).ok()).collect();
+    let kind = trace.nodes[0].clone();
+    let mk = |clause: &str, detail: String| Violation { prop: "C16".into(), node: kind.clone(), step: trace.steps.len(), op_kind: "crash".into(), clause: clause.to_string(), detail };
+    if !acked.iter().any(|a| a["created"] == true) {
+        // died during creation: nothing acknowledged; a later open must work
+        wait_unlocked(&data.join(&kind));
+        match guarded(|| Node::create(&kind, trace.depth, &trace.store, &data)) {
+            Ok(Ok(_)) => res.counters.inc("oracle_evaluations"),
+            Ok(Err(e)) => res.violation = Some(mk("open_failed_after_crash_during_create", e)),
+            Err(p) => res.violation = Some(mk("open_panic_after_crash_during_create", p)),
+        }
+        return res;
+    }
+    let depth = trace.depth;
+    let mut model = IdealTree::new(depth);
+    let mut flushed = model.clone();
+    let cap = model.cap().min(1 << 10);
+    let mut later: Vec<BTreeSet<[u8; 32]>> = vec![BTreeSet::new(); cap];
+    let mut later_hwm: BTreeSet<usize> = BTreeSet::new();
+    let mut later_meta: Vec<Vec<u8>> = Vec::new();
+    let mut last_acked: i64 = -1;
+    for a in &acked {
+        if let Some(si) = a["step"].as_u64() {
+            last_acked = si as i64;
+        }
+    }
+    let ack_of = |si: usize| acked.iter().find(|a| a["step"].as_u64() == Some(si as u64));
+    for (si, step) in trace.steps.iter().enumerate() {
+        if matches!(step.op, Op::Reset | Op::Init { .. }) {
+            continue;
+        }
+        if matching_signatures(&kind, &step.op, &model).iter().any(|s| s.starts_with("pm_batch_mixed")) {
+            continue;
+        }
+        let a = ack_of(si);
+        let in_flight = a.is_none() && (si as i64) > last_acked;
+        if a.is_none() && !in_flight {
+            continue;
+        }
+        let ok = a.map(|a| a["ok"] == true).unwrap_or(false);
+        let pre = model.clone();
+        let mut post = model.clone();
+        let exp = step_model(&mut post, &step.op);
+        let applied = matches!(exp, Expect::Applied);
+        // every value this step may have stored is a legitimate later value
+        for i in 0..cap {
+            if post.get(i) != pre.get(i) {
+                later[i].insert(fr_to_le32(&post.get(i)));
+            }
+        }
+        later_hwm.insert(post.hwm);
+        later_meta.push(post.metadata.clone());
+        if ok && applied {
+            model = post;
+        }
+        let is_flush = matches!(step.op, Op::Flush) || matches!(step.op, Op::Reopen { flush: true });
+        if ok && is_flush {
+            flushed = model.clone();
+            for s in later.iter_mut() {
+                s.clear();
+            }
+            later_hwm.clear();
+            later_meta.clear();
+            res.counters.inc("reach.flush_acknowledged_before_crash");
+        }
+        if in_flight {
+            break;
+        }
+    }
+    // the parent reopens the location
+    wait_unlocked(&data.join(&kind));
+    let mut node = match guarded(|| Node::create(&kind, depth, &trace.store, &data)) {
+        Ok(Ok(n)) => n,
+        Ok(Err(e)) => {
+            res.violation = Some(mk("reopen_failed_after_crash", e));
+            return res;
+        }
+        Err(p) => {
+            res.violation = Some(mk("reopen_panic_after_crash", p));
+            return res;
+        }
+    };
+    for i in 0..cap {
+        match node.read_leaf(i) {
+            Ok(v) => {
+                if v != flushed.get(i) && !later[i].contains(&fr_to_le32(&v)) {
+                    res.violation = Some(mk("flushed_update_lost_after_crash", format!("after process exit at storage write {k} and reopen, leaf {i} = {} but the last acknowledged flush had {}", fr_to_json(&v), fr_to_json(&flushed.get(i)))));
+                    return res;
+                }
+            }
+            Err(e) => {
+                res.violation = Some(mk("read_failed_after_crash", e));
+                return res;
+            }
+        }
+    }
+    let hwm = node.observed_hwm();
+    if hwm != flushed.hwm && !later_hwm.contains(&hwm) {
+        res.violation = Some(mk("leaf_count_lost_after_crash", format!("leaves_set {hwm}, flushed {}", flushed.hwm)));
+        return res;
+    }
+    match node.read_meta() {
+        Ok(m) => {
+            if m != flushed.metadata && !later_meta.contains(&m) {
+                res.violation = Some(mk("metadata_lost_after_crash", format!("metadata {} , flushed {}", hex(&m), hex(&flushed.metadata))));
+                return res;
+            }
+        }
+        Err(e) => {
+            res.violation = Some(mk("read_failed_after_crash", e));
+            return res;
+        }
+    }
+    res.counters.inc("oracle_evaluations");
+    if let Err(e) = node.prim_set(0, Fr::from(78u64)) {
+        res.violation = Some(mk("write_failed_after_crash_recovery", e));
+    }
+    res
+}
+
+pub fn crash_replay_json(trace: &Trace, k: u64) -> Value {
+    let mut j = trace.to_json();
+    j["engine"] = json!("e1store");
+    j["storage_fault"] = json!({"layer": "exit", "k": k});
     j
 }
